@@ -159,7 +159,22 @@ pub fn acceptance_is_context_sensitive(
 ) -> Option<&'static str> {
   match served_media_type(world, spec)? {
     deno_graph::MediaType::Unknown => Some("unknown"),
-    deno_graph::MediaType::Json => Some("json"),
+    deno_graph::MediaType::Json => {
+      // JSON that every importer requests with `type: "json"` is a module
+      // in every context
+      let mut key = spec.to_string();
+      for _ in 0..4 {
+        match world.entries.get(&key) {
+          Some(crate::world::Entry::Alias { to }) => key = to.clone(),
+          _ => break,
+        }
+      }
+      if crate::world::json_class_targets(world).contains(&key) {
+        None
+      } else {
+        Some("json")
+      }
+    }
     _ => None,
   }
 }
